@@ -26,7 +26,9 @@ func (m *monC05) classify(r *Runner, s *Snap, pk PosKey, op, errs string) string
 		return op + ":reward-pool-shortfall"
 	case strings.Contains(errs, "division by zero") || strings.Contains(errs, "divide by zero"):
 		// a validator whose alliance token value is zero while shares remain (after a 100% slash)
-		if s.ValTokens(pk.Val, pk.Denom).Sign() == 0 {
+		// (precondition of the open finding: delegator shares exist on the validator but are worth nothing; a drained
+		// asset or a validator nobody delegates to is a different state)
+		if vi, ok := s.ValInfos[pk.Val]; ok && s.ValTokens(pk.Val, pk.Denom).Sign() == 0 && decCoinsAmount(vi.TotalDelegatorShares, pk.Denom).IsPositive() {
 			return op + ":zero-value-validator"
 		}
 		// the validator's fraction of the asset's shares is below 18-digit resolution, so the module
